@@ -69,7 +69,7 @@ func shapeModel(shape string, ids []string) []string {
 	var out []string
 	for _, id := range ids {
 		switch shape {
-		case "identity", "setnested":
+		case "identity", "setnested", "subentity":
 			out = append(out, id)
 		case "dropeven":
 			if idNum(id)%2 == 1 {
@@ -89,6 +89,8 @@ var jsShapes = map[string]string{
 	"setnested": `function transform_entities(entities) { for (e of entities) { e["Properties"]["nested"] = [[1, 2], [3], []]; e["Properties"]["flat"] = [4, 5]; e["Properties"]["n"] = 7; } return entities; }`,
 	// a "create entities" transform: appends one derived entity per input entity to the array it was given and returns it
 	"pushderived": `function transform_entities(entities) { var n = entities.length; for (var i = 0; i < n; i++) { var e = entities[i]; var d = NewEntity(); SetId(d, GetId(e).replace(":e", ":d")); d["Properties"]["from"] = GetId(e); entities.push(d); } return entities; }`,
+	// a sub-entity as a property value, built with the documented helpers
+	"subentity": `function transform_entities(entities) { for (e of entities) { var s = NewEntity(); SetId(s, GetId(e) + "-sub"); SetProperty(s, "http://x/", "w", 1); e["Properties"]["sub"] = s; } return entities; }`,
 	"identity":    `function transform_entities(entities) { return entities; }`,
 	"dropeven":    `function transform_entities(entities) { var r = []; for (e of entities) { var id = GetId(e); var n = parseInt(id.substring(id.indexOf(":e")+2)); if (n % 2 == 1) { r.push(e); } } return r; }`,
 }
@@ -370,7 +372,7 @@ func init() {
 		}
 		// the same shapes in a fullsync job: its second run hands every entity to the transform and the sink again, so
 		// "running it again produces no new changes" compares transform output with what was stored
-		for _, shape := range []string{"identity", "dropeven", "setnested"} {
+		for _, shape := range []string{"identity", "dropeven", "setnested", "subentity"} {
 			for n := 0; n <= 6; n++ {
 				for b := 1; b <= 3; b++ {
 					for p := 1; p <= 2; p++ {
